@@ -160,9 +160,44 @@ func (c12) unique(c *fw.Case) {
 		inst = a.Interface()
 	}
 	rs := uniqueSchema()
+	schemaText := `{"uniqueItems":true}`
+	if r.IntN(5) == 0 && !hasInexact(model) { // (numbers in a schema DOCUMENT are float64: only values a float64 holds exactly can be listed)
+		// uniqueItems beside prefixItems and an items schema that admits only finitely many values (enum / const): the first k
+		// items are covered by prefixItems, the rest by items - every member of the array is admitted, so the verdict still hinges
+		// on uniqueness alone (an implementation must not conclude "more items than admitted values => duplicates")
+		k := r.IntN(n + 1)
+		var enum []any
+		seen := map[string]bool{}
+		for _, m := range model[k:] {
+			cm := canon.Must(m)
+			if !seen[cm] {
+				seen[cm] = true
+				enum = append(enum, gen.Clone(m))
+			}
+		}
+		doc := map[string]any{"uniqueItems": true, "prefixItems": make([]any, k)}
+		for i := 0; i < k; i++ {
+			doc["prefixItems"].([]any)[i] = gen.Pick(r, []any{true, map[string]any{}})
+		}
+		switch {
+		case len(enum) == 1 && r.IntN(2) == 0:
+			doc["items"] = map[string]any{"const": enum[0]}
+		case len(enum) > 0:
+			doc["items"] = map[string]any{"enum": enum}
+		default:
+			doc["items"] = map[string]any{"const": nil}
+		}
+		if k == 0 {
+			delete(doc, "prefixItems")
+		}
+		text := gen.Text(doc)
+		if rs2, err, ok := compileDoc(c, text, nil); ok && err == nil {
+			rs, schemaText = rs2, text
+		}
+	}
 	desc := gen.Describe(inst)
 	for rep := 0; rep < 8; rep++ {
-		got, ok := validate(c, rs, `{"uniqueItems":true}`, inst, desc)
+		got, ok := validate(c, rs, schemaText, inst, desc)
 		if !ok {
 			return
 		}
@@ -170,7 +205,7 @@ func (c12) unique(c *fw.Case) {
 		c.Digest(fmt.Sprint(got))
 		if got != expectUnique {
 			c.Violation(fmt.Sprintf("uniqueItems verdict valid=%v but pairwise JSON equality says unique=%v (repetition %d)", got, expectUnique, rep),
-				map[string]any{"instance": desc, "canon": canons, "equal_positions": []int{dupI, dupJ}, "repetition": rep})
+				map[string]any{"schema": json.RawMessage(schemaText), "instance": desc, "canon": canons, "equal_positions": []int{dupI, dupJ}, "repetition": rep})
 			return
 		}
 	}
